@@ -11,11 +11,21 @@
     C14_device_guard_refuted) and the guards alone do not keep the devices
     within the count (C02_devices_needs_no_nominated).  On such nodes the clause
     is evaluated by the cycle monitor c02_ok on the real decisions and by the
-    C14 ground-truth monitor on the real NodeInfo. *)
+    C14 ground-truth monitor on the real NodeInfo.
+    What-if statements (last section): the scenario solvers try placements in
+    statements that are rolled back or discarded when the scenario fails; such
+    a what-if - including the move of an evicted shared pod to another GPU group
+    of its own node - leaves the per-device books of every node as they were, so
+    the guards of later binds in the session see the true devices
+    (C02_discarded_whatif_keeps_device_books, C02_rolled_back_whatif_keeps_device_books,
+    from C13's statement model); the variant whose undo record of such a move
+    restores the NEW group gives out a third device on a 2-GPU node
+    (C02_undo_restoring_new_group_refuted, the world of seeded/C02-4). *)
 From Coq Require Import List ZArith PArith Bool.
 From KaiV Require Import Model.Res Model.Status Model.AMap Model.Node Model.NodeSpec Model.GpuSharing Proofs.Node Proofs.GroupsFit Proofs.GpuSharing.
 From KaiV Require Import Proofs.NodeFull.
 From KaiV Require Run.Cycle.
+From KaiV Require Model.Session Model.SessionMove Proofs.Session Proofs.SessionMove.
 Import ListNotations.
 Open Scope Z_scope.
 
@@ -217,3 +227,104 @@ Theorem C02_cycle_devices_nonvacuous :
             /\ gpu (n_idle n) = 0 /\ devices_in_use (tasks_of n) = 4 /\ gpu (n_alloc n) = 4.
 Proof. exact cycle_devices_nonvacuous. Qed.
 Print Assumptions C02_cycle_devices_nonvacuous.
+
+(** ** What-if statements of the scenario solvers (Proofs/SessionMove.v)
+
+    Consolidation, reclaim and preempt try their scenarios in a Statement:
+    victims are evicted, re-placed (possibly on another GPU group of the node
+    they sit on: Statement.Pipeline's isSharedAndMoveToDifferentGPU branch), the
+    pending job is nominated; when the scenario fails the statement is rolled
+    back / discarded and the session goes on to the next job.  The statement
+    model is C13's (Model/Session.v, tied to the real Statement by the C13
+    check).  [sessions_device_books_kept x y], spelled out by
+    [C02_device_books_kept_meaning]: every node has the same pod copies with the
+    same GPU groups, the same GPU count and device memory, on every device the
+    same used / allocated / releasing memory, hence the same memory recomputed
+    from the pods, the same devices in use, the same answers of
+    EnoughIdleResourcesOnGpu (on devices holding allocated memory) and
+    IsTaskFitOnGpuGroup, and - when the idle whole-GPU count is the same (it is
+    unless the node is exposed to the known finding C14-device-guard) - the same
+    verdict of the replay guard [bind_guard] for every task and every choice of
+    GPU groups. *)
+Theorem C02_discarded_whatif_keeps_device_books :
+  forall (fails : nat -> bool) (S : Session.sess) (prog : list Session.cmd),
+    Session.s_log S = [] -> Session.s_stuck S = false -> forallb Proofs.Session.open_cmd prog = true ->
+    Session.wf_from Proofs.Session.any_task fails [] false S (prog ++ [Session.Discard]) = true ->
+    Proofs.SessionMove.sessions_device_books_kept S (Session.run fails S (prog ++ [Session.Discard])).
+Proof. exact Proofs.SessionMove.discarded_whatif_keeps_device_books. Qed.
+Print Assumptions C02_discarded_whatif_keeps_device_books.
+
+Theorem C02_rolled_back_whatif_keeps_device_books :
+  forall (fails : nat -> bool) (S : Session.sess) (prog : list Session.cmd) (cp : nat),
+    Session.s_log S = [] -> Session.s_stuck S = false -> forallb Proofs.Session.open_cmd prog = true ->
+    Session.wf_from Proofs.Session.any_task fails [] false S (prog ++ [Session.Rollback cp]) = true ->
+    exists x, Proofs.Session.state_at fails S prog cp = Some x
+              /\ Proofs.SessionMove.sessions_device_books_kept x (Session.run fails S (prog ++ [Session.Rollback cp])).
+Proof. exact Proofs.SessionMove.rolled_back_whatif_keeps_device_books. Qed.
+Print Assumptions C02_rolled_back_whatif_keeps_device_books.
+
+Theorem C02_device_books_kept_meaning :
+  (forall x y, Proofs.SessionMove.sessions_device_books_kept x y <->
+     forall nid, match alookup nid (Session.s_nodes x), alookup nid (Session.s_nodes y) with
+                 | Some a, Some b => Proofs.SessionMove.device_books_kept a b
+                 | None, None => True
+                 | _, _ => False
+                 end)
+  /\ forall a b : node,
+  Proofs.SessionMove.device_books_kept a b <->
+  (n_pods a = n_pods b /\ n_ngpu a = n_ngpu b /\ n_gpumem a = n_gpumem b /\ n_alloc a = n_alloc b
+   /\ (forall g, zget g (g_used a) = zget g (g_used b) /\ zget g (g_alloc a) = zget g (g_alloc b)
+                 /\ zget g (g_rel a) = zget g (g_rel b))
+   /\ (forall g, spec_galloc g (tasks_of a) = spec_galloc g (tasks_of b))
+   /\ devices_in_use (tasks_of a) = devices_in_use (tasks_of b)
+   /\ (forall m g, zget g (g_alloc a) <> 0 -> enough_idle_on_gpu a m g = enough_idle_on_gpu b m g)
+   /\ (forall m g, fits_gpu_group a m g = fits_gpu_group b m g)
+   /\ (gpu (n_idle a) = gpu (n_idle b) ->
+       forall t gs, Run.Cycle.bind_guard a t gs = Run.Cycle.bind_guard b t gs)).
+Proof. split; [intros x y; reflexivity | exact Proofs.SessionMove.device_books_kept_meaning]. Qed.
+Print Assumptions C02_device_books_kept_meaning.
+
+(** Non-vacuity on the world of seeded/C02-4, as the harness builds it with the
+    real constructors (2-GPU node 1; pod 3 = frac_t, 0.5, runs on device 14;
+    pod 5 = frac_s, 0.5, runs on device 13; pod 7 = whole_w, one GPU, pending).
+    The what-if [evict frac_s; nominate it onto device 14 of node 1; discard]
+    is well formed and contains a same-node GPU-group move whose undo entry
+    records device 13 (the node copy's group); after the discard the node has
+    no idle GPU, both devices hold the 50 MiB of their running sharer, 2 devices
+    are in use, and the guard refuses to bind whole_w. *)
+Theorem C02_readme_whatif_restores_node :
+  let pipeline := Session.pipeline in let evict := Session.evict in
+  Session.wf_from Proofs.Session.any_task SessionMove.nofaults [] false SessionMove.rw_init
+    (SessionMove.whatif_prog 5 1 [14%positive]) = true
+  /\ (exists o, nth_error (Session.s_log (fst (pipeline (fst (evict SessionMove.rw_init 5%positive)) 5%positive 1%positive (Some [14%positive]) false))) 1 = Some o
+                /\ o = Session.OPipe 5 Releasing (Some 1%positive) [13%positive] true 1 true)
+  /\ Proofs.SessionMove.sessions_device_books_kept SessionMove.rw_init (SessionMove.whatif SessionMove.rw_init 5 1 [14%positive])
+  /\ (let n := SessionMove.rw_node (SessionMove.whatif SessionMove.rw_init 5 1 [14%positive]) in
+      gpu (n_idle n) = 0 /\ n_idle n = n_idle (SessionMove.rw_node SessionMove.rw_init)
+      /\ zget 13 (g_alloc n) = 50 /\ zget 14 (g_alloc n) = 50
+      /\ devices_in_use (tasks_of n) = 2 /\ n_ngpu n = 2
+      /\ Run.Cycle.bind_guard n SessionMove.rw_whole [] = false).
+Proof. exact Proofs.SessionMove.readme_whatif_restores_node. Qed.
+Print Assumptions C02_readme_whatif_restores_node.
+
+(** NOT the code (seeded/C02-4: Statement.Pipeline without
+    `previousGpuGroup = taskOnNode.GPUGroups`): [pipeline_undo_new_group] records
+    in the undo entry the groups the pod object carries, which gpu_sharing has
+    already overwritten with the new group.  The same what-if on the same world
+    then does not keep the device books: frac_t's device 14 is recorded with no
+    allocated memory although frac_t runs on it (recomputed from the pods: 50),
+    the node shows an idle GPU that does not exist, the guard admits whole_w,
+    and after that bind 3 devices are in use on the 2-GPU node - a device is
+    given both to a whole-GPU pod and to a fractional pod. *)
+Theorem C02_undo_restoring_new_group_refuted :
+  (exists o, nth_error (Session.s_log (fst (SessionMove.pipeline_undo_new_group (fst (Session.evict SessionMove.rw_init 5%positive)) 5%positive 1%positive (Some [14%positive]) false))) 1 = Some o
+             /\ o = Session.OPipe 5 Releasing (Some 1%positive) [14%positive] true 1 true)
+  /\ ~ Proofs.SessionMove.sessions_device_books_kept SessionMove.rw_init (SessionMove.whatif_undo_new_group SessionMove.rw_init 5 1 [14%positive])
+  /\ (let n := SessionMove.rw_node (SessionMove.whatif_undo_new_group SessionMove.rw_init 5 1 [14%positive]) in
+      n_pods n = n_pods (SessionMove.rw_node SessionMove.rw_init)
+      /\ gpu (n_idle n) = 1 /\ zget 14 (g_alloc n) = 0 /\ spec_galloc 14 (tasks_of n) = 50
+      /\ devices_in_use (tasks_of n) = 2 /\ n_ngpu n = 2
+      /\ Run.Cycle.bind_guard n SessionMove.rw_whole [] = true
+      /\ exists n', add_task n SessionMove.rw_whole = Ok n' /\ devices_in_use (tasks_of n') = 3 /\ n_ngpu n' = 2).
+Proof. exact Proofs.SessionMove.undo_restoring_new_group_refuted. Qed.
+Print Assumptions C02_undo_restoring_new_group_refuted.
